@@ -473,7 +473,9 @@ func (t *Collection) VisitItemsRandom(
 	var j int
 	v := func(i *Item, depth uint64) bool {
 		if j == 0 {
-			blockStore = append(blockStore, i.Key)
+			// A copy: the item is released when the visit leaves its
+			// node and its key bytes may then be reused (ItemDecRef).
+			blockStore = append(blockStore, append([]byte(nil), i.Key...))
 			j = 1
 		} else if j >= lenBlock {
 			j = 0
@@ -511,7 +513,7 @@ func (t *Collection) VisitItemsRandom(
 				}
 				first = true
 				advanced = true
-				blockStore[i] = itm.Key
+				blockStore[i] = append([]byte(nil), itm.Key...)
 				return false
 			}
 			err = t.VisitItemsAscendEx(si, true, vis)
@@ -547,7 +549,9 @@ func (t *Collection) VisitItemsAscendBlockEx(
 	var j int
 	v := func(i *Item, depth uint64) bool {
 		if j == 0 {
-			blockStore = append(blockStore, i.Key)
+			// A copy: the item is released when the visit leaves its
+			// node and its key bytes may then be reused (ItemDecRef).
+			blockStore = append(blockStore, append([]byte(nil), i.Key...))
 			j = 1
 		} else if j >= lenBlock {
 			j = 0
